@@ -9,7 +9,11 @@ import common as C
 
 def template():
     d = C.workdir("mcexec")
-    prog = A.file([A.stanza("(identifier) @id ", [A.let(A.var("u"), A.cap("id"))]), A.stanza("(identifier) @id ", [A.let(A.var("u"), A.cap("id"))])])
+    # the bodies are replaced by TLC; the scan below only makes the harness prepare the regex tables the wide pool needs, the
+    # shorthand is the one pool entry 25 uses
+    tables = A.scan(A.call("source-text", A.cap("id")), ("^[a-f]", []), ("(x)|(y)", []))
+    prog = A.file([A.stanza("(identifier) @id ", [A.let(A.var("u"), A.cap("id")), tables]), A.stanza("(identifier) @id ", [A.let(A.var("u"), A.cap("id"))])],
+                  shorthands=[A.shorthand("sh", "p", [A.attr("sh1", A.var("p")), A.attr("sh2", A.lst(A.var("p"), A.var("p")))])])
     c = A.case("template", prog, 2, "strict")
     raw, out = os.path.join(d, "raw.ndjson"), os.path.join(d, "out.ndjson")
     C.write_ndjson(raw, [c])
@@ -26,11 +30,21 @@ def template():
     return path, t
 
 
-def run(tier, name):
-    """runs MCExec; returns (programs, tlc stats, template case)"""
+def run(tier, name, wide=False):
+    """runs MCExec; returns (programs, tlc stats, template case).
+    wide: the 26-entry pool (scoped values forced inside other calls, unused variables, var/set, comprehension, scan, shorthand,
+    print) with bodies of at most 2 + 1 statements instead of the 12-entry core pool"""
     path, t = template()
     cfg = "MCExec.cfg"
-    if tier == "thorough":
+    if wide:
+        with open(os.path.join(C.SPEC, "MCExec.cfg")) as f:
+            txt = f.read().replace("PoolN = 12", "PoolN = 26").replace("MaxLen2 = 2", "MaxLen2 = 1").replace("ClosedOnly = FALSE", "ClosedOnly = TRUE")
+            if tier == "thorough":
+                txt = txt.replace("MaxLen1 = 2", "MaxLen1 = 3")
+        with open(os.path.join(C.SPEC, "MCExecWide.cfg"), "w") as f:
+            f.write(txt)
+        cfg = "MCExecWide.cfg"
+    elif tier == "thorough":
         with open(os.path.join(C.SPEC, "MCExec.cfg")) as f:
             txt = f.read().replace("MaxLen1 = 2", "MaxLen1 = 3")
         with open(os.path.join(C.SPEC, "MCExec3.cfg"), "w") as f:
